@@ -156,6 +156,9 @@ CANNED_PROSE = [
     'Beginning at a point on the fence, thence running along the road',
     'approximately 40 acres along the creek',
     'That portion described in Book 12, Page 345 of the county records',
+    # 'section' inside an ordinary word, a number after it
+    'Beginning at the intersection 50 feet north of the fence',
+    'the bisect 12 rods wide',
 ]
 
 
@@ -226,7 +229,7 @@ _TWP_LOOKALIKE = re.compile(
     r"\d{1,3}[\s.,\-–—]*(n|s)[a-z]{0,5}[\s.,\-–—;|_~]*(r[a-z]{0,6})?"
     r"[\s.,\-–—]*\d", re.I)
 _FORBIDDEN = re.compile(
-    r"(sec|§|\bT[\s.\-]*\d|\bR[\s.\-]*\d|P\.?\s*M\.?\b|merid|"
+    r"((?<![a-z])sec|§|\bT[\s.\-]*\d|\bR[\s.\-]*\d|P\.?\s*M\.?\b|merid|"
     r"\btownship\b|\btwp|\brange\b|\brge)", re.I)
 _SEP_EDGE = ",;:-–—\t\n ."
 
